@@ -240,6 +240,19 @@ def stdlib_prims(repo):
             if not 1 <= y <= 9999:
                 raise NotEvaluable("datetime.date out of range")
             return Fraction(_dt.date(y, m, d).timetuple().tm_yday)
+        if t[0] == "call" and t[1] == ".toordinal" and len(t) == 3 and t[2][0] == "call" and t[2][1] == "datetime.date" and len(t[2]) == 5:
+            y, m, d = (eval_exact(x, env, prims) for x in t[2][2:5])
+            if any(Fraction(v).denominator != 1 for v in (y, m, d)) or not 1 <= y <= 9999:
+                raise NotEvaluable("datetime.date out of range")
+            try:
+                return Fraction(_dt.date(int(y), int(m), int(d)).toordinal())
+            except ValueError as e_:
+                raise NotEvaluable("datetime.date: %s" % e_)
+        if t[0] == "attr" and t[2] in ("year", "month", "day") and t[1][0] == "call" and t[1][1] == ".fromordinal" and len(t[1]) == 4:
+            o = eval_exact(t[1][3], env, prims)
+            if Fraction(o).denominator != 1 or not 1 <= o <= 3652059:
+                raise NotEvaluable("date.fromordinal out of range")
+            return Fraction(getattr(_dt.date.fromordinal(int(o)), t[2]))
         return None
     return prims
 
